@@ -676,7 +676,7 @@ pub fn main_with(lookup: Lookup) {
                 results.lock().unwrap()[i] = Some("badcase".to_string());
                 continue;
             }
-            if lines[i][0] == "acc" && lines[i].iter().any(|t| t.starts_with('f')) {
+            if lines[i][0] == "acc" && lines[i].iter().any(|t| t.starts_with('f') || t.starts_with('F')) {
                 continue; // changes the process-wide descriptor limit: run alone, below
             }
             let r = run_one(lines[i].clone(), lookup);
